@@ -199,6 +199,11 @@ def writer_line(prog, rec):
 
 def respaced(prog, lines):
     """The lines as print_pqr writes them with --whitespace (print_pqr is interpreted; non-record lines are dropped by it or kept)."""
+    return written_file(prog, lines, whitespace=True, is_cif=False)
+
+
+def written_file(prog, lines, whitespace, is_cif):
+    """The lines of the file print_pqr writes from the given output lines under the two flags that steer it (print_pqr is interpreted)."""
     from ..guards import Flow, Obj
     from ..objinterp import ObjRunner
     written = []
@@ -214,9 +219,9 @@ def respaced(prog, lines):
         return NotImplemented
 
     run = ObjRunner(prog, "main.py", extra_hook=extra)
-    argsm = Obj({"__class__": "Namespace", "whitespace": True, "output_pqr": "model.pqr"})
+    argsm = Obj({"__class__": "Namespace", "whitespace": whitespace, "output_pqr": "model.pqr"})
     try:
-        run.call_function("main.py", "print_pqr", argsm, list(lines), [], [], False)
+        run.call_function("main.py", "print_pqr", argsm, list(lines), [], [], is_cif)
     except Flow as fl:
         raise AnalysisError(f"print_pqr stops with {fl.value} on the model lines") from None
     return "".join(str(x) for x in written).splitlines(keepends=True)
@@ -289,6 +294,25 @@ def rule_pqr_reader(prog, rep, rid, title="pdb2pqr's own PQR reader turns every 
             isinstance(a, dict) and all(a.get(k) == w[k] for k in w) for a, w in zip(atoms2, want))
         r.add("reader|whitespace-layout", same, "the records re-spaced by --whitespace are read back with the same field values" if same else
               f"the --whitespace form of the model records is read back as {str(atoms2)[:160]}", where)
+    # the whole file as print_pqr writes it (records, TER/END, format trailer) for either input format and either spacing
+    for is_cif in (False, True):
+        for ws in (False, True):
+            tag = f"{'mmCIF' if is_cif else 'PDB'} input, {'--whitespace' if ws else 'fixed columns'}"
+            try:
+                flines = written_file(prog, [ln for ln, w in model if w is not None or not ln.startswith("REMARK")], ws, is_cif)
+            except AnalysisError:
+                continue
+            try:
+                atoms3 = run.call_function("io.py", "read_pqr", flines)
+            except Flow as fl:
+                odd = [ln for ln in flines if not ln.startswith(("ATOM", "HETATM"))]
+                r.bad(f"reader|file-as-written|{tag}", f"read_pqr stops with {fl.value} on the file print_pqr writes for {tag} "
+                      f"(lines other than records in it: {[x.strip() for x in odd]})", where)
+                continue
+            same = isinstance(atoms3, list) and len(atoms3) == len(want) and all(
+                isinstance(a, dict) and all(a.get(k) == w[k] for k in w) for a, w in zip(atoms3, want))
+            r.add(f"reader|file-as-written|{tag}", same, f"the file print_pqr writes for {tag} ({len(flines)} lines) is read back as "
+                  f"{len(atoms3) if isinstance(atoms3, list) else '?'} atoms" + ("" if same else f", expected the {len(want)} written ones with equal fields"), where)
     r.info["model_lines"] = len(lines)
     r.info["methods_interpreted"] = sorted(set(run.calls))
 
